@@ -286,6 +286,9 @@ class TJPTransformer(Transformer[Any, Any]):
             else:
                 hours = 0
 
+            if hours == float("inf"):
+                raise ValueError(f"duration {duration_str} is out of range")
+
             # TaskJuggler rounds limit values to integer slots
             if round_to_slots:
                 return round(hours)
